@@ -944,6 +944,9 @@ func (s *Session) SetCloseDeadline(t time.Time) error {
 func (s *Session) Encode(ctx context.Context, v interface{}) error {
 	s.out.Lock()
 	defer s.out.Unlock()
+	if s.State()&OutputStreamClosed == OutputStreamClosed {
+		return ErrOutputStreamClosed
+	}
 
 	defer setWriteDeadline(ctx, s.conn)()
 	return marshal.EncodeXML(s.out.e, v)
@@ -956,6 +959,9 @@ func (s *Session) Encode(ctx context.Context, v interface{}) error {
 func (s *Session) EncodeElement(ctx context.Context, v interface{}, start xml.StartElement) error {
 	s.out.Lock()
 	defer s.out.Unlock()
+	if s.State()&OutputStreamClosed == OutputStreamClosed {
+		return ErrOutputStreamClosed
+	}
 
 	defer setWriteDeadline(ctx, s.conn)()
 	return marshal.EncodeXMLElement(s.out.e, v, start)
@@ -979,6 +985,11 @@ func (s *Session) SendElement(ctx context.Context, r xml.TokenReader, start xml.
 func send(ctx context.Context, s *Session, r xml.TokenReader, start *xml.StartElement) error {
 	s.out.Lock()
 	defer s.out.Unlock()
+	// Nothing may follow the closing stream tag. The state only changes to
+	// closed while the output lock is held, so checking once is enough.
+	if s.State()&OutputStreamClosed == OutputStreamClosed {
+		return ErrOutputStreamClosed
+	}
 
 	defer setWriteDeadline(ctx, s.conn)()
 
